@@ -34,6 +34,8 @@ def reference(kind, nq, ops, vs):
             exp = True
             if len(op) > 1:
                 for q, pre in zip(qs, op[1]):
+                    if pre == "keep":
+                        continue           # the same object goes into the new Hold: nothing changes
                     if not q and pre:
                         for i in pre:
                             if kind == "durq" or vs[i] not in q:
@@ -94,7 +96,7 @@ class C23(core.Check):
     thorough_n = 6000
     rule = ("case = (durq|dusq, 1-2 queue keys held in one Hold over one Subery, <= 30 ops push/pull/pull(emptive=False)/extend|update/clear/remove/count/reopen "
             "over 5 values with duplicates (plus, rarely, the ==-equal values Bag(1)/Bag(1.0)/Bag(True)), and REJECTED calls: None / a str / an int as push, remove, count argument or at any position of an extend|update batch (the adapter records the HierError and continues); reopen = close the lmdb env, open it again, new Hold, "
-            "fresh OR PRELOADED queue objects - Durq(vals)/Dusq(vals) with the same / permuted / same-length / shorter / longer content than the durable copy - injected at the same keys; sync(force) on live queues). After every op list(queue) and the durable list at the key are observed for every queue. "
+            "fresh OR PRELOADED queue objects - Durq(vals)/Dusq(vals) with the same / permuted / same-length / shorter / longer content than the durable copy - or the SAME objects re-injected ('keep'), via hold[k]= and hold.update, on a new or the same re-opened Subery; sync(force) on live queues; fresh equal value objects per call, Dusq arguments and results scribbled on; sibling sub-db sentinel). After every op list(queue) and the durable list at the key are observed for every queue. "
             "non-trivial = at least one reopen with a non-empty queue and >= 3 mutating ops; distinct by request line")
     trusted_base = ["lmdb modelled as a sorted association list (exercised by the correspondence on real lmdb, including close/reopen of the environment)",
                     "translator harness/extract/store.py (suffix constants)",
@@ -132,6 +134,10 @@ class C23(core.Check):
             ("dusq", q, [("extend", 0, [0, 1, 2]), ("pull", 0), ("push", 0, 0), ("reopen", [[0, 1, 2]]), ("pull", 0), ("reopen", [[0, 2]]), ("sync", 0, True), ("pull", 0),
                          ("pull", 0), ("reopen", [[3, 3, 1, 3]]), ("sync", 0, False), ("pull", 0), ("reopen", [[]]), ("pull", 0)]),
             ("durq", (b"a", b"a_b"), [("push", 0, 0), ("push", 1, 1), ("pull", 0), ("push", 0, 2), ("reopen", [[0], [2]]), ("pull", 0), ("pull", 1), ("reopen", [[1, 1], None]), ("pull", 0)]),
+            # the SAME queue objects re-injected after reopen (even reopens re-open the same Subery object), ops before and after
+            ("durq", (b"q", b"r"), [("push", 0, 0), ("push", 1, 1), ("reopen", ["keep", "keep"]), ("push", 0, 2), ("pull", 1), ("reopen", ["keep", [3]]), ("pull", 0), ("push", 1, 0),
+                                    ("reopen", [None, "keep"]), ("pull", 0), ("pull", 1), ("reopen", ["keep", "keep"]), ("pull", 0), ("pull", 1)]),
+            ("dusq", q, [("extend", 0, [0, 1]), ("reopen", ["keep"]), ("push", 0, 1), ("push", 0, 2), ("reopen", ["keep"]), ("remove", 0, 0), ("sync", 0, True), ("reopen", [None]), ("pull", 0)]),
             # REJECTED operations (argument None / a foreign object at every position of a batch): no effect, history goes on
             ("durq", q, [("push", 0, 0), ("extend", 0, [1, -1]), ("extend", 0, [1, 2, -2, 0]), ("extend", 0, [-3, 1]), ("push", 0, -1), ("push", 0, -2),
                          ("count", 0, -1), ("pull", 0), ("reopen",), ("pull", 0), ("extend", 0, [1, -1, 2]), ("reopen",), ("pull", 0)]),
@@ -154,11 +160,11 @@ class C23(core.Check):
                 for h in itertools.product(alpha, repeat=n):
                     out.append((kind, (b"q",), list(h)))
         for kind in ("durq", "dusq"):
-            alpha = [("push", 0, 0), ("push", 0, 1), ("pull", 0), ("reopen",), ("reopen", [[0, 1]]), ("reopen", [[1]]), ("sync", 0, True)]
+            alpha = [("push", 0, 0), ("push", 0, 1), ("pull", 0), ("reopen",), ("reopen", [[0, 1]]), ("reopen", [[1]]), ("reopen", ["keep"]), ("sync", 0, True)]
             for n in (1, 2, 3, 4):
                 for h in itertools.product(alpha, repeat=n):
                     out.append((kind, (b"q",), list(h)))
-        return out, "every history of <= 4 ops from {push v0, push v1, pull, reopen fresh, reopen preloaded [v0,v1], reopen preloaded [v1], sync(force)} and every history of <= 4 ops from {push v0, push v1, pull, extend [v1,v0,v1], extend [v1,None,v0] (rejected), clear, reopen (+ remove v0, remove v1 for dusq)} on one queue"
+        return out, "every history of <= 4 ops from {push v0, push v1, pull, reopen fresh, reopen preloaded [v0,v1], reopen preloaded [v1], reopen with the same object, sync(force)} and every history of <= 4 ops from {push v0, push v1, pull, extend [v1,v0,v1], extend [v1,None,v0] (rejected), clear, reopen (+ remove v0, remove v1 for dusq)} on one queue"
 
     def generate(self, rng, n, tier):
         for case in self._generate(rng, n, tier):
@@ -182,9 +188,11 @@ class C23(core.Check):
                         cur = [c for _, c, _ in reference(kind, len(keys), ops, list(range(st.NVALS)))][-1] if ops else [[] for _ in keys]
                         pres = []
                         for c in cur:          # c: current content as value indices (the reference runs on indices here)
-                            m = rng.choice(["none", "same", "perm", "samelen", "shorter", "longer", "other"])
+                            m = rng.choice(["none", "keep", "keep", "same", "perm", "samelen", "shorter", "longer", "other"])
                             if m == "none":
                                 pres.append(None)
+                            elif m == "keep":
+                                pres.append("keep")
                             elif m == "same":
                                 pres.append(list(c))
                             elif m == "perm":
@@ -236,7 +244,7 @@ class C23(core.Check):
             elif o[0] == "extend":
                 rops.append((o[0], o[1], tuple(val(i) for i in o[2])))
             elif o[0] == "reopen" and len(o) > 1:
-                rops.append(("reopen",) + tuple(tuple(val(i) for i in (pre or ())) for pre in o[1]))
+                rops.append(("reopen",) + tuple("keep" if pre == "keep" else tuple(val(i) for i in (pre or ())) for pre in o[1]))
             elif o[0] == "sync":
                 rops.append((o[0], o[1], bool(o[2])))
             else:
@@ -251,6 +259,8 @@ class C23(core.Check):
         vs = st._vals()
         ANY = reference.ANY
         bad = []
+        if len(obs) != len(ops):
+            bad.append("sibling-subdb-changed")
         prev = tuple(((), ()) for _ in keys)
         for (exp, content, rejected), (res, seen), op in zip(reference(kind, len(keys), ops, vs), obs, ops):
             if isinstance(res, tuple) and res[:1] == ("raise",) and exp != res:
@@ -284,7 +294,7 @@ class C23(core.Check):
                 per.setdefault(o[1], set()).update(i for i in o[2] if i >= 0)
             elif o[0] == "reopen" and len(o) > 1:
                 for qi, pre in enumerate(o[1]):
-                    per.setdefault(qi, set()).update(pre or ())
+                    per.setdefault(qi, set()).update(() if pre == "keep" else (pre or ()))
         for used in per.values():
             if any(a != b and tab[a][0] == tab[b][0] and tab[a][1] != tab[b][1] for a in used for b in used):
                 return "C23-K1"
@@ -329,7 +339,7 @@ C23.level_text = (
     "Lean theorems, all unbounded: hold_refines (ONE refinement theorem for a Hold with several queues of one kind in one store: every history of push/pull/extend|update/clear/remove/count addressed to any "
     "key WITH reopen - close, open, inject fresh objects at every key, sync - at arbitrary positions: after every step result, in-memory content and durable content of EVERY queue are those of independent "
     "FIFO queues / insertion-ordered sets, i.e. durable mirror, reopen restores and key independence in one statement), durq_refines_fifo / dusq_refines_oset_partial (single queue), durable_mirror, "
-    "reopen_restores, no_mismatch_error, spec_other_queue_unchanged, dusq_content_nodup; rejected calls (None / foreign object as argument or at any position of a batch) are part of the history language of hold_refines (MOp.a + validate): rejected_op_is_identity (store, addressed queue and all other queues unchanged, result False / HierError / 0), rejected_iff_bad_argument; reopen injects objects built from ANY preload (Durq(vals)/Dusq(vals); fresh = empty preload) and sync(force) is an operation: syncBody models what the code does (non-empty durable copy wins, an empty one is overwritten by pinning the preload), reopen_restores and spec_reopen_any_preload hold for every preload at every position. Dusq theorems are _partial under '== coincides with equality of serialisations' (F38; witness "
+    "reopen_restores, no_mismatch_error, spec_other_queue_unchanged, dusq_content_nodup; rejected calls (None / foreign object as argument or at any position of a batch) are part of the history language of hold_refines (MOp.a + validate): rejected_op_is_identity (store, addressed queue and all other queues unchanged, result False / HierError / 0), rejected_iff_bad_argument; reopen injects objects built from ANY preload (Durq(vals)/Dusq(vals); fresh = empty preload) and sync(force) is an operation: syncBody models what the code does (non-empty durable copy wins, an empty one is overwritten by pinning the preload; the SAME object re-injected is left alone), reopen_restores and spec_reopen_any_preload hold for every preload at every position. Dusq theorems are _partial under '== coincides with equality of serialisations' (F38; witness "
     "dusq_mirror_fails_without_guard, known finding C23-K1); all under the exact key guard of C24 at the queue keys. F37 (Dusq.remove always raised) is fixed. "
     "Tied to the code by a differential run on real lmdb with reopen at every gap and 1-2 queues per Hold.")
 C23.level_note = ("Trusted: Lean kernel + propext/Classical.choice/Quot.sound; the sorted-list model of lmdb and of env close/open; the abstraction of values to (==-class, serialisation). "
